@@ -177,8 +177,9 @@ theorem eqMapLoop_iff (c : VCmp) :
 
 /-! ## unknown fields -/
 
-theorem eqUnknown_iff (x y : Unk) : eqUnknown x y = true ↔ unkSame x y := by
-  unfold eqUnknown unkSame unkLen
+theorem eqUnknown_iff_code (x y : Unk) : eqUnknown x y = true ↔
+    (unkBytes x = unkBytes y ∨ ((unkBytes x).length = (unkBytes y).length ∧ ∀ n, unkGroup n x = unkGroup n y)) := by
+  unfold eqUnknown unkLen
   by_cases hl : (unkBytes x).length = (unkBytes y).length
   · by_cases hb : unkBytes x = unkBytes y
     · simp [hb]
